@@ -136,3 +136,12 @@ drivers' histories (which vary time stamps and bodies independently of the seque
 which it shows. -/
 theorem C19_reads_only_sequence_and_type :
     LA.Gen.ReasmFacts.msgReads = ["call:ReassemblyComplete", "field:RecordType", "field:Sequence"] := by decide
+
+/-- The deadlines are the only clock readings a Reassembler keeps: the Reassembler the fact above is read from buffers
+exactly one event (one push, then a Maintain, so that whatever a clean-up pass might remember about when it ran has
+been set), and exactly one non-zero `time.Time` is reachable from it. The model's state has one deadline per buffered
+event and nothing else that depends on when something happened; a Reassembler that also remembers when it last
+looked — to look less often, to batch, to rate-limit its callbacks — delivers a stale event later than the first call
+after its timeout on histories whose calls are spaced just so, which a check finds only if its sleeps happen to
+bracket the constant chosen. -/
+theorem C19_the_deadlines_are_the_only_clock_state : LA.Gen.ReasmFacts.deadlinesMonotonic.length = 1 := by decide
